@@ -654,18 +654,19 @@ def withdraw_rules(R, env, prog, hctx, rule, pid):
         good = False
         why = fmt(amt or ("none",))[:200]
         from engine.analysis import forms as _forms
-        for af in (_forms(prog, amt, 1) if amt is not None else []):
-            # (a helper such as compute_withdraw_amount(received, request, total) is looked through)
-            if af[0] == "call" and af[1] == "cosmwasm_std::Uint128::multiply_ratio" and len(af[2]) == 3:
-                amt = af
-                break
-        if amt is not None and amt[0] == "call" and amt[1] == "cosmwasm_std::Uint128::multiply_ratio" and len(amt[2]) == 3:
-            recv, num, den_ = amt[2]
-            good = (
+        for af in (_forms(prog, amt, 2) if amt is not None else []):
+            # (a helper such as compute_withdraw_amount(received, request, total), or an accessor of the batch
+            # such as batch.withdrawable_native(), is looked through)
+            if not (af[0] == "call" and af[1] == "cosmwasm_std::Uint128::multiply_ratio" and len(af[2]) == 3):
+                continue
+            recv, num, den_ = af[2]
+            if (
                 recv[0] == "payload" and recv[1][0] == "field" and recv[1][2] == "received_native_unstaked" and batch(recv[1][1])
                 and num[0] == "field" and num[2] == "amount" and request(num[1])
                 and den_[0] == "field" and den_[2] == "batch_total_liquid_stake" and batch(den_[1])
-            )
+            ):
+                good = True
+                break
         R.ob(rule, "Withdraw:payout-formula", good, "payout = %s; expected received_native_unstaked.multiply_ratio(own request amount, batch_total_liquid_stake) of the batch named in the message" % why, loc=loc, fn=hk)
         R.ob(rule, "Withdraw:payout-denom", ibc_denom(prog, den), "payout denom %s" % fmt(den or ("none",))[:80], loc=loc, fn=hk)
         R.ob(rule, "Withdraw:payee-is-caller", is_sender(agg_field(t, "to_address") or ("none",)), "payout goes to %s" % fmt(agg_field(t, "to_address") or ("none",))[:80], loc=loc, fn=hk)
